@@ -115,7 +115,13 @@ func discharge(o *Obligation, timeout int, cross bool) SolverResult {
 	seen := map[string]bool{}
 	var last SolverResult
 	for _, k := range []int{2, 4, -1, fullQuery} {
-		for _, inst := range []bool{true, false} {
+		// both variants of one slice level race each other
+		type variant struct {
+			q    string
+			inst bool
+		}
+		var vs []variant
+		for _, inst := range []bool{false, true} {
 			q := o.exec.slicedQuery(o, k, inst)
 			if seen[q] {
 				continue
@@ -125,28 +131,64 @@ func discharge(o *Obligation, timeout int, cross bool) SolverResult {
 				last = SolverResult{Status: "unknown", Solver: "none", Output: "query too large"}
 				continue
 			}
-			r := solve(q, timeout, cross, false)
-			spent += r.Seconds
-			if r.Status == "unsat" {
-				switch {
-				case k == fullQuery:
+			vs = append(vs, variant{q, inst})
+		}
+		if len(vs) == 0 {
+			continue
+		}
+		ch := make(chan struct {
+			r    SolverResult
+			inst bool
+		}, len(vs))
+		for _, v := range vs {
+			v := v
+			go func() {
+				r := solve(v.q, timeout, cross, false)
+				ch <- struct {
+					r    SolverResult
+					inst bool
+				}{r, v.inst}
+			}()
+		}
+		var levelMax float64
+		satPlain := false
+		var got *SolverResult
+		for range vs {
+			x := <-ch
+			if x.r.Seconds > levelMax {
+				levelMax = x.r.Seconds
+			}
+			if x.r.Status == "unsat" && got == nil {
+				r := x.r
+				if k == fullQuery {
 					r.Solver += " [full"
-				default:
+				} else {
 					r.Solver += " [slice " + itoa(k)
 				}
-				if inst {
+				if x.inst {
 					r.Solver += "+inst"
 				}
 				r.Solver += "]"
-				r.Seconds = spent
-				return r
+				r.Seconds = spent + x.r.Seconds
+				got = &r
+				if !cross {
+					break
+				}
 			}
-			last = r
-			if r.Status == "sat" && k == -1 && !inst {
-				// the unbounded cone of influence is satisfiable: hypotheses outside the cone cannot help
-				r.Seconds = spent
-				return r
+			last = x.r
+			if x.r.Status == "sat" && !x.inst {
+				satPlain = true
 			}
+		}
+		if got != nil {
+			return *got
+		}
+		spent += levelMax
+		if satPlain && k == -1 {
+			// the unbounded cone of influence is satisfiable: hypotheses outside the cone cannot help
+			last.Status = "sat"
+			last.Seconds = spent
+			return last
 		}
 	}
 	last.Seconds = spent
